@@ -223,12 +223,20 @@ func genMyRewriteCase(t *rapid.T) MyCase {
 			c.Ops = append(c.Ops, prep)
 			idx := len(c.Ops) - 1
 			times := rapid.IntRange(1, 2).Draw(t, l+".times")
+			var prevParams []MyParam
 			for k := 0; k < times; k++ {
 				el := fmt.Sprintf("%s.x%d", l, k)
 				ex := MyOp{Kind: "execute", Stmt: idx, NewParams: k == 0 || rapid.Bool().Draw(t, el+".np")}
 				ex.Insert = []MyCell{{B: Blob{N: 4, Pat: []byte{byte(k + 1), 0, 0, 0}}}}
 				ex.Params = []MyParam{{Type: mysess.TypeLong, B: ex.Insert[0].B}}
-				switch rapid.SampledFrom([]string{"int", "int", "negative", "unsigned-bigint"}).Draw(t, el+".idkind") {
+				idKind := rapid.SampledFrom([]string{"int", "int", "negative", "unsigned-bigint"}).Draw(t, el+".idkind")
+				if !ex.NewParams {
+					idKind = "int"
+					if prevParams[0].Type == mysess.TypeLongLong {
+						idKind = "unsigned-bigint"
+					}
+				}
+				switch idKind {
 				case "negative":
 					ex.Insert[0].B = Blob{N: 4, Pat: []byte{0xfe, 0xff, 0xff, 0xff}}
 					ex.Params[0].B = ex.Insert[0].B
@@ -243,6 +251,9 @@ func genMyRewriteCase(t *rapid.T) MyCase {
 						cell.B.N = 300
 					}
 					p := MyParam{Type: rapid.SampledFrom([]byte{mysess.TypeVarString, mysess.TypeBlob, mysess.TypeString}).Draw(t, fmt.Sprintf("%s.t%d", el, j)), Null: cell.Null, B: cell.B}
+					if !ex.NewParams {
+						p.Type = prevParams[j+1].Type // types that are not sent are those of the previous execution
+					}
 					if cfg.Role == "int32" || cfg.Role == "int64" {
 						if !cell.Null && (len(cell.B.Pat) == 0 || cell.B.Pat[0] == 0xfe) {
 							cell.B = textBlob("42")
@@ -261,14 +272,35 @@ func genMyRewriteCase(t *rapid.T) MyCase {
 							p.B = cell.B
 						}
 					}
-					if cell.Null && rapid.Bool().Draw(t, fmt.Sprintf("%s.nulltype%d", el, j)) {
-						p.Type = mysess.TypeNull
+					if cell.Null && ex.NewParams {
+						// a NULL is bound with the NULL type, with the type of the column's values, or with a string type
+						switch rapid.SampledFrom([]string{"null-type", "value-type", "string-type"}).Draw(t, fmt.Sprintf("%s.nulltype%d", el, j)) {
+						case "null-type":
+							p.Type = mysess.TypeNull
+						case "value-type":
+							if cfg.Role == "int32" {
+								p.Type = mysess.TypeLong
+							} else if cfg.Role == "int64" {
+								p.Type = mysess.TypeLongLong
+							}
+						}
+					}
+					if !ex.NewParams && prevParams[j+1].Type == mysess.TypeNull {
+						// a parameter declared as NULL type stays NULL
+						p, cell = MyParam{Type: mysess.TypeNull, Null: true}, MyCell{Null: true}
+					}
+					if !ex.NewParams && (cfg.Role == "int32" || cfg.Role == "int64") && !p.Null && p.Type != prevParams[j+1].Type {
+						p.Type = prevParams[j+1].Type
+						if mysess.BinaryWidth(p.Type) < 0 {
+							p.B = cell.B
+						}
 					}
 					ex.Insert = append(ex.Insert, cell)
 					ex.Params = append(ex.Params, p)
 				}
 				ex.Resp.Kind = "ok"
 				ex.Resp.OK = MyOK{Affected: 1, Status: mysess.StatusAutocommit}
+				prevParams = ex.Params
 				c.Ops = append(c.Ops, ex)
 			}
 		case "ping":
@@ -618,7 +650,7 @@ func (c MyCase) checkExecute(vs *hx.Vs, cl classSet, p spkt, got []byte, last ma
 			sameMeaning := g.Type == s.Type && bytes.Equal(g.B, s.B) && (g.Unsigned == s.Unsigned || (isIntType(s.Type) && len(s.B) > 0 && s.B[len(s.B)-1]&0x80 == 0))
 			if !sameMeaning && g.Type == s.Type && bytes.Equal(g.B, s.B) && s.Unsigned && !g.Unsigned {
 				// open finding when listed: exactly this shape is excluded and counted
-				if R.IsKnown(sigUnsignedFlag) {
+				if !replaying && R.IsKnown(sigUnsignedFlag) {
 					cl.add("excluded:unsigned-flag-dropped")
 					continue
 				}
@@ -675,7 +707,7 @@ func execKinds(in *insertInfo, e mysess.Execute) string {
 
 func TestMySQLRewrite(t *testing.T) {
 	R.Rule("TestMySQLRewrite", "a MySQL session as in TestMySQLRelay with an encryptor configuration for table t: columns c0..c4 with generated roles (not configured / encrypted with acrastruct or acrablock / data_type str, bytes, int32, int64 with response_on_fail default_value and defaults of lengths 0, 3, 12, 250, 251, 300); commands: SELECT (text rows) and prepared SELECT (binary rows, executed once or twice, types re-sent or not) answered by the scripted server with rows whose configured columns hold NULL / empty / really protected values made with fix.Protect (plaintext lengths 1..65536, so decryption shrinks them, also across the 251 and 65536 boundaries) / stored bytes that do not decrypt (replaced by the default: grows, shrinks or keeps the length); INSERT as text and as prepared statement with values for configured columns. Oracle: every packet keeps its sequence id; untouched packets byte-identical; a rewritten row re-parses strictly with the reference codec against the column definitions the client received (no trailing bytes, canonical length prefixes), NULL markers preserved, unconfigured and unchanged fields byte-identical, changed fields equal the expected plaintext / default; re-typed column definitions re-parse with all names preserved; a rewritten COM_QUERY parses with an independent parser to the same statement with unconfigured values unchanged and configured values not in clear; a rewritten COM_STMT_EXECUTE re-parses with the same NULL bitmap and untouched parameters. Non-trivial: a row with >= 1 changed and >= 1 unchanged non-NULL column")
-	hx.Checks(60, 500)
+	hx.Checks(400, 1500)
 	rapid.Check(t, func(rt *rapid.T) {
 		c := genMyRewriteCase(rt)
 		vs, classes, nt := CheckMy(c)
